@@ -858,8 +858,8 @@ class Translator:
         # from_batch_mvn
         fn = self.methods.get("from_batch_mvn")
         calls = [n for n in ast.walk(fn) if isinstance(n, ast.Call) and isinstance(n.func, ast.Name) and n.func.id == "cls"]
-        if len(calls) != 1:
-            bad(fn, "expected one cls(...) call")
+        if len(calls) != 1 or len([x for x in ast.walk(fn) if isinstance(x, ast.Return)]) != 1:
+            bad(fn, "expected one cls(...) call and one return path in from_batch_mvn")
         kw = {k.arg: k.value for k in calls[0].keywords}
         cov = kw.get("covariance_matrix")
         if not (isinstance(cov, ast.Call) and isinstance(cov.func, ast.Name) and cov.func.id in ops
@@ -889,6 +889,10 @@ class Translator:
         ret = fn.body[-1]
         if not (isinstance(ret, ast.Return) and isinstance(ret.value, ast.Call) and ast.unparse(ret.value.func) == "cls"):
             bad(ret, "from_independent_mvns result")
+        nret = [x for x in ast.walk(fn) if isinstance(x, ast.Return)]
+        ncls = [x for x in ast.walk(fn) if isinstance(x, ast.Call) and ast.unparse(x.func).startswith("cls")]
+        if len(nret) != 1 or len(ncls) != 1:
+            bad(nret[0] if len(nret) > 1 else fn, "from_independent_mvns has more than one construction / return path")
         kw = {k.arg: ast.unparse(k.value) for k in ret.value.keywords}
         if kw.get("mean") != "mean" or kw.get("covariance_matrix") != "covar_lazy":
             bad(ret, "from_independent_mvns result arguments")
